@@ -91,6 +91,7 @@ COST_SAMPLES = [
     ('caps_interval_data', 'caps_dict', dict(T=4, wacc=True)),
     ('mixed_discount_rates', 'mixed_wacc', dict(T=3, freq='d', unit='d')),
     ('windows', 'windows', dict(T=4)),
+    ('scaled_storage_own_window', 'scaled', dict(T=4, base='storage', win=(1, 3))),
     ('linked_plants', 'linked', dict(T=3)),
     ('storage_no_simult', 'contract_storage', dict(T=2, storage_kw=dict(no_simult_in_out=True))),
     ('storage_max_duration', 'contract_storage', dict(T=3, eff=None, storage_kw=dict(max_store_duration=2, costs=False))),
@@ -99,7 +100,7 @@ COST_SAMPLES = [
     ('periodic_transport', 'periodic', dict(T=4, kind='transport', eff=0.5)),
     ('structured_two_internal', 'structured', dict(T=2, two_internal=True)),
 ]
-COST_QUICK = 19
+COST_QUICK = 20
 
 
 def run_costs(rec, seed, shape, kw):
